@@ -137,6 +137,7 @@ typedef struct {
     int      bad_server_sig; /* the server SENDS its certificate with one signature bit flipped (the issuer is trusted by the client) */
     int      no_cert_cb;     /* register no cert callback (default: strict callback returning alert) */
     int      ems_off;        /* disable extended master secret on client */
+    int      ec384;          /* TLS <= 1.2 ECDHE: the client only enables secp384r1 (ecFlags), so the server's ephemeral key is on that curve */
     int      hrr;            /* TLS 1.3: the client offers {P-256, P-384} with a key share for P-256 only, the server supports P-384 only: HelloRetryRequest */
     uint64_t seed;
 } wcfg_t;
